@@ -103,8 +103,8 @@ def bnaf_activation_cases():
 
 def run(ctx):
     q = ctx.tier == "quick"
-    run_hypothesis(ctx, bnaf_activation_cases(), oracle, 10 if q else 120, "C18-bnaf-activations")
-    run_hypothesis(ctx, bc.leaf_cases(inv=False), oracle, 50 if q else 1000, "C18-leaves")
-    run_hypothesis(ctx, bc.tree_cases(3, 7, inv=False) if q else bc.tree_cases(4, 12, inv=False), oracle, 12 if q else 250,
+    run_hypothesis(ctx, bnaf_activation_cases(), oracle, 10 if q else 60, "C18-bnaf-activations")
+    run_hypothesis(ctx, bc.leaf_cases(inv=False), oracle, 50 if q else 600, "C18-leaves")
+    run_hypothesis(ctx, bc.tree_cases(3, 7, inv=False) if q else bc.tree_cases(4, 12, inv=False), oracle, 12 if q else 150,
                    "C18-trees")
-    run_hypothesis(ctx, bc.flow_cases(), oracle, 4 if q else 80, "C18-flows")
+    run_hypothesis(ctx, bc.flow_cases(), oracle, 4 if q else 40, "C18-flows")
